@@ -180,7 +180,7 @@ pub fn seq_case() -> BoxedStrategy<SeqCase> {
         vec((any::<u16>(), any::<u8>()), 1..5),
         vec((any::<u16>(), any::<u16>()), 1..4),
         prop::bool::weighted(0.3),
-        vec((any::<u16>(), any::<u16>(), 0u8..4), 1..5),
+        vec((any::<u16>(), any::<u16>(), 0u8..8), 1..7),
     )
         .prop_map(|(len, seed, edits, sections, bom, swaps)| SeqCase { len, seed, edits, sections, bom, swaps })
         .boxed()
@@ -221,6 +221,26 @@ pub fn check_seq(c: &SeqCase, st: &mut Stats) -> Check {
         let i = (((*a as usize) * (n / 8)) >> 16) * 8;
         let j = (((*b as usize) * (n / 8)) >> 16) * 8;
         if i == j {
+            continue;
+        }
+        if *kind >= 4 {
+            // finite-difference patterns: coefficients (-1)^k C(d,k) added to d+1 equally spaced bytes leave every
+            // weighted sum sum(i^m * b_i), m < d, unchanged (checksums of the Fletcher / Adler / two-moment kind), for
+            // byte-, word- and block-wise weights alike when the spacing is a multiple of 8
+            let d = [2usize, 3, 4, 2][(*kind as usize - 4) % 4];
+            let spacing = [8usize, 64, 8, 1][(*kind as usize - 4) % 4] * (1 + (*b as usize % 3));
+            let coef: &[i16] = match d {
+                2 => &[1, -2, 1],
+                3 => &[1, -3, 3, -1],
+                _ => &[1, -4, 6, -4, 1],
+            };
+            if i + d * spacing < n && coef.iter().enumerate().all(|(k, c)| (0..=255).contains(&(buf[i + k * spacing] as i16 + c))) {
+                for (k, c) in coef.iter().enumerate() {
+                    buf[i + k * spacing] = (buf[i + k * spacing] as i16 + c) as u8;
+                }
+                st.class("finite-difference in-place edit (weighted byte sums up to degree d-1 unchanged)");
+                check(&buf, "after a finite-difference in-place edit (length, byte sum and position-weighted byte sums unchanged)", st)?;
+            }
             continue;
         }
         match kind % 4 {
@@ -331,9 +351,10 @@ pub fn run(ctx: &Ctx) -> Report {
         .pick(&[(17usize << 20) + 3, 33 << 20][..], &[(17usize << 20) + 3, 33 << 20, (64 << 20) + 1, 130 << 20][..])
         .iter()
         .enumerate()
-        .map(|(i, len)| SeqCase { len: *len, seed: ctx.seed ^ (i as u64 + 1), edits: vec![(0, 1), (65535, 7), (32768, 3)], sections: vec![(0, 32768), (1, 65535)], bom: i % 2 == 1, swaps: vec![(100, 60000, 0), (5, 40000, 2)] })
+        .map(|(i, len)| SeqCase { len: *len, seed: ctx.seed ^ (i as u64 + 1), edits: vec![(0, 1), (65535, 7), (32768, 3)], sections: vec![(0, 32768), (1, 65535)], bom: i % 2 == 1, swaps: vec![(100, 60000, 0), (5, 40000, 2), (300, 1, 4), (7000, 2, 5), (40000, 0, 6), (65000, 1, 7)] })
         .collect();
     rep.run_enum("big-sequences", &big, check_seq);
+    rep.run_enum("default-objects", &[0u8], super::common::check_default_objects);
     let cfg = GenCfg { plain_sourcefile_headers: true, ..GenCfg::default() };
     rep.run_stage("mappings", move || super::common::map_case(&cfg), ctx.cases(20_000, 900_000), |c: &super::common::MapCase, st: &mut Stats| {
         let lf = c.file.render(&Render { eol: Eol::Lf, final_eol: true });
@@ -434,6 +455,9 @@ pub fn run(ctx: &Ctx) -> Report {
 }
 
 pub fn replay(stage: &str, case: &Value) -> Check {
+    if stage == "default-objects" {
+        return super::common::check_default_objects(&0, &mut Stats::new());
+    }
     let mut st = Stats::new();
     sha1::self_test().map_err(|e| Fail::new("harness-replay", e))?;
     match stage {
